@@ -134,6 +134,7 @@ func traceConcStore(t *testing.T, o opts) {
 			continue
 		}
 		r := rng(o.seed, h)
+		note("concstore history %d (seed %d): readers on handles and an updater while polls, lookups of fresh names, an abandoned refresh and Close run against a service that holds its answers", h, o.seed)
 		// "poll" is an ordinary secret name too (it must not collide with anything internal)
 		g := &gateSvc{cur: map[string]int{"a": 1, "b": 1, "c": 1, "d": 1, "e": 1, "poll": 1}, gate: make(chan struct{})}
 		var clock atomic.Int64
@@ -172,6 +173,29 @@ func traceConcStore(t *testing.T, o opts) {
 		} else {
 			handles["e"] = hA
 			handles["e'"] = hB
+		}
+		// a read through either of the two handles refreshes the access time of the entry the store
+		// holds for the name (the one its cache writes and its expiry rule look at)
+		lateStampBad := 0
+		if lateFlight == 0 {
+			stampOf := func() int64 {
+				for _, e := range setec.VerifSnapshot(st) {
+					if e.Name == "e" {
+						return e.LastAccess
+					}
+				}
+				return -1
+			}
+			for _, hd := range []setec.Secret{hA, hB} {
+				now := clock.Add(7)
+				func() {
+					defer func() { recover() }()
+					hd.Get()
+				}()
+				if stampOf() != now {
+					lateStampBad++
+				}
+			}
 		}
 		// an updater on the late-flight name: it must keep following installs like any other
 		type builtE struct{ idx int }
@@ -629,8 +653,8 @@ func traceConcStore(t *testing.T, o opts) {
 		if st2 != nil && err2 == nil {
 			st2.Close()
 		}
-		emit("concstore\treaders=%d\treads=%d\tbad=%d\twrongname=%d\tnonmono=%d\twindows=%d\tstalled=%d\tpanics=%d\tafterclose=%d\tdropped_pinned=%d\tupd_bad=%d\tupd_nonmono=%d\tlookup_fail=%d\tmax_cond_waiting=%d\tstale_after_refresh=%d\tlate_flight_fail=%d\tlookup_panics=%d\tupd_e_stale=%d\tbelow_floor=%d\tnil_but_stale=%d\tcache_behind=%d\tby_refresh_bad=%d\tby_lookup_bad=%d\t%s",
-			nreaders, reads.Load(), bad.Load(), wrong.Load(), nonmono.Load(), windows, stalled, panics.Load(), afterClose, dropped, ubad.Load(), unonmono.Load(), lookupFail.Load(), g.maxCondWaiting.Load(), staleAfter, lateFlight, lookupPanics.Load(), updEStale, belowFloor, nilButStale, cacheBehind, byRefreshBad, byLookupBad, cu)
+		emit("concstore\treaders=%d\treads=%d\tbad=%d\twrongname=%d\tnonmono=%d\twindows=%d\tstalled=%d\tpanics=%d\tafterclose=%d\tdropped_pinned=%d\tupd_bad=%d\tupd_nonmono=%d\tlookup_fail=%d\tmax_cond_waiting=%d\tstale_after_refresh=%d\tlate_flight_fail=%d\tlookup_panics=%d\tupd_e_stale=%d\tbelow_floor=%d\tnil_but_stale=%d\tcache_behind=%d\tby_refresh_bad=%d\tby_lookup_bad=%d\tlate_stamp_bad=%d\t%s",
+			nreaders, reads.Load(), bad.Load(), wrong.Load(), nonmono.Load(), windows, stalled, panics.Load(), afterClose, dropped, ubad.Load(), unonmono.Load(), lookupFail.Load(), g.maxCondWaiting.Load(), staleAfter, lateFlight, lookupPanics.Load(), updEStale, belowFloor, nilButStale, cacheBehind, byRefreshBad, byLookupBad, lateStampBad, cu)
 	}
 }
 
